@@ -11,12 +11,21 @@ E1 `faults`  library-produced messages of 1..4 (5) parts: every sequence of part
              (including payloads crafted so that the bc32 checksum still passes and only the SHA-256 digest can tell),
              truncations crafted so that the remaining prefix is a valid bc32 string, every single-character
              substitution of every character of every part: parse raises or returns the original payload.
+             Added after the audit: the no-digest single part read through BCURMulti.parse (`single-plain-multi`), single
+             parts cut where the remaining text is still valid bc32 (`cut1`), consistently relabelled totals / prefixes
+             (`relabel`), one character deleted / inserted / swapped with its neighbour (`indel`), and the same fault
+             classes on a 53-part message of a 65536-byte payload (`big`).
+E1 `strict`  component level: cbor_decode on truncated / extended / non-preferred / wrong-type encodings, bc32decode on
+             truncated / extended / non-zero-padding / over-padded / mixed-case strings and on every string shorter than
+             the checksum: whenever the library returns bytes a strict RFC 8949 / BCR-2020-004 reader returns the same bytes.
+E1 `fn`      bcur_encode / bcur_decode called directly (with and without checksum): reference text, inverse, every
+             single-character substitution of text and checksum, foreign checksum / text, texts cut at a valid bc32 prefix.
 """
 import itertools
 from base64 import b64encode
 from binascii import a2b_base64
 
-from mc.core import Engine, Res, attempt, Rejected, filler
+from mc.core import Engine, Res, attempt, Rejected, filler, filler_int
 from mc.ref import bcurref as ref
 
 PROP = "C20"
@@ -45,11 +54,26 @@ def recovered(obj):
     return a2b_base64(obj.text_b64)
 
 
-def lengths(tier, what):
+WINDOW = list(range(65530, 65541)) + [70000]
+EXTRA_SIZES = (1, 299, 300, 301, 2000)
+
+
+def extra_lengths(seed):
+    """thorough tier: lengths between the dense range and the 65535/65536 window: every power of two 2^11..2^15 and its
+    two neighbours, plus 64 lengths 1301..65529 chosen by the seed (representatives of an otherwise uniform range)."""
+    pw = [v for k in range(11, 16) for v in (2**k - 1, 2**k, 2**k + 1)]
+    seeded = [filler_int(seed, "c20-extra-length", i, 1301, 65529) for i in range(64)]
+    return sorted(set(pw + seeded))
+
+
+def lengths(tier, what, seed=0):
     small = 600
     if what == "chunk":
         small = 600 if tier == "quick" else 1300
-    return list(range(0, small + 1)) + list(range(65530, 65541)) + [70000]
+    out = list(range(0, small + 1))
+    if tier == "thorough":
+        out += [L for L in extra_lengths(seed) if L > small]
+    return out + WINDOW
 
 
 STD_HEADS = {0x58: 1, 0x59: 2, 0x5A: 4, 0x5B: 8}
@@ -77,7 +101,7 @@ def library_head(payload):
 
 # ---------------------------------------------------------------- cbor
 def gen_cbor(tier, seed):
-    return [{"L": L, "seed": seed} for L in lengths(tier, "cbor")]
+    return [{"L": L, "seed": seed} for L in lengths(tier, "cbor", seed)]
 
 
 def run_cbor(case):
@@ -127,7 +151,7 @@ def run_cbor(case):
 # ---------------------------------------------------------------- bc32
 def gen_bc32(tier, seed):
     sub = 64 if tier == "quick" else 200
-    return [{"L": L, "seed": seed, "subst": L <= sub} for L in lengths(tier, "bc32")]
+    return [{"L": L, "seed": seed, "subst": L <= sub} for L in lengths(tier, "bc32", seed)]
 
 
 def run_bc32(case):
@@ -184,8 +208,12 @@ BIG_SIZES = (1, 2, 3, 7, 299, 300, 301, 1000, 1999, 2000)
 
 def gen_chunk(tier, seed):
     cases = []
-    for L in lengths(tier, "chunk"):
-        if L <= 2000:
+    extra = set(extra_lengths(seed)) if tier == "thorough" else set()
+    for L in lengths(tier, "chunk", seed):
+        if L > 2000 and L in extra:
+            for s in EXTRA_SIZES:
+                cases.append({"L": L, "seed": seed, "kind": "f0", "sizes": [s, s]})
+        elif L <= 2000:
             cases.append({"L": L, "seed": seed, "kind": "f0", "sizes": [1, 2000]})
             if tier == "thorough" and L <= 600:
                 cases.append({"L": L, "seed": seed, "kind": "f1", "sizes": [1, 2000]})
@@ -225,6 +253,41 @@ def weak_parts_check(parts, body, dg, mx):
     if "".join(frs) != body:
         return "join-mismatch"
     return None
+
+
+def alt_case(text):
+    """every second character upper case (mixed case inside one string)"""
+    return "".join(c.upper() if i % 2 else c for i, c in enumerate(text))
+
+
+def honest_variants(res, reader, wrap, texts, payload, vc, where):
+    """Presentations of an honest message that change no character value.
+    upper / per-string upper-lower: a UR string is case-insensitive as a whole (BCR-2020-005: upper case is what QR
+    alphanumeric mode carries) -> must be accepted and give the payload.
+    surrounding white space, tuple instead of list, mixed case inside one string: not demanded -> raises or payload."""
+    n = len(texts)
+    must = [("upper", [t.upper() for t in texts])]
+    if n > 1:
+        must.append(("upper-lower-per-part", [t.upper() if i % 2 == 0 else t for i, t in enumerate(texts)]))
+    for nm, v in must:
+        back = attempt(reader, wrap(v))
+        if isinstance(back, Rejected) or back is None:
+            res.violation(f"C20/chunk/variant/{nm}-rejected/{where}", vc, repr(back), "payload", "an honest message written in upper case is not read back")
+        elif attempt(recovered, back) != payload:
+            res.violation(f"C20/chunk/variant/{nm}-different/{where}", vc, "different payload", {"len": len(payload)}, "an honest message written in upper case yields a different payload")
+        else:
+            res.ok(f"variant[{nm}]==x", nontrivial=("variant", nm, where, len(payload), n))
+    may = [("whitespace", wrap(["  " + t + " \n" for t in texts])), ("mixed-case-inside", wrap([alt_case(texts[0])] + list(texts[1:])))]
+    if wrap(texts) is not texts and isinstance(wrap(texts), list):
+        may.append(("tuple", tuple(wrap(texts))))
+    for nm, arg in may:
+        back = attempt(reader, arg)
+        if isinstance(back, Rejected) or back is None:
+            res.ok(f"variant[{nm}]:refused")
+        elif attempt(recovered, back) != payload:
+            res.violation(f"C20/chunk/variant/{nm}-different/{where}", vc, "different payload", {"len": len(payload)}, "a re-presented honest message yields a different payload")
+        else:
+            res.ok(f"variant[{nm}]==x")
 
 
 def run_chunk(case):
@@ -305,6 +368,8 @@ def run_chunk(case):
             else:
                 res.ok(f"parse(encode)==x[{shape}]", sample={"L": L, "max": mx, "n": n, "size": size} if n in (3, 7) and L in (100, 300) else None)
                 res.notes["distinct_chunkings_reassembled"] = res.notes.get("distinct_chunkings_reassembled", 0) + 1
+                if len(parts) <= 5:
+                    honest_variants(res, BCURMulti.parse, list, parts, payload, {"engine": "chunk", "case": dict(case, sizes=[mx, mx])}, "multi")
         st, val = ref.classify(parts, dialect) if body_ok else ("ok", payload)
         if (st, val) != ("ok", payload):
             res.violation(
@@ -358,6 +423,8 @@ def run_chunk(case):
                     res.violation(f"C20/chunk/{nm}-roundtrip-different/{form}/{bk}", vc, {"len": len(got) if isinstance(got, bytes) else repr(got)}, {"len": L}, "single-part round trip yields a different payload")
                 else:
                     res.ok(f"{nm}.parse(single[{form}])==x", nontrivial=("single", L, form, nm))
+                    if nm == "single":
+                        honest_variants(res, BCURSingle.parse, lambda v: v[0], [text], payload, vc, f"single-{form}")
             st, val = ref.classify([text], dialect) if body_ok else ("ok", payload)
             if (st, val) != ("ok", payload):
                 res.violation(f"C20/chunk/single-independent/{form}/{bk}", vc, [st, val if st == "bad" else len(val)], {"len": L}, "independent reader does not recover the payload from the single-part form")
@@ -387,9 +454,28 @@ def max_for_parts(E, n):
     return None
 
 
+INDEL_LENS = {"quick": (0, 1, 9, 23, 24, 100), "thorough": FAULT_LENS["thorough"]}
+BIG_LENS = {"quick": (65536,), "thorough": (65535, 65536)}
+BIG_EDGE = {"quick": (8, 7), "thorough": (40, 12)}  # body characters taken from the start / from the end of a part
+
+
 def gen_faults(tier, seed):
     nmax = 4 if tier == "quick" else 5
     cases = []
+    # a payload around the 65535/65536 head boundary at the largest chunk size of the statement (53 parts)
+    for L in BIG_LENS[tier]:
+        base = {"L": L, "n": 0, "max": 2000, "seed": seed, "tier": tier, "kind": "big"}
+        cases.append(dict(base, sub="seq"))
+        cases.append(dict(base, sub="foreign"))
+        first, last = BIG_EDGE[tier]
+        for pi in ("first", "last"):
+            # quick: only the start of the first part (CBOR head symbols) and the end of the last part (bc32 checksum)
+            if tier == "thorough" or pi == "first":
+                for off in range(first):
+                    cases.append(dict(base, sub="subst", part=pi, side="start", off=off))
+            if tier == "thorough" or pi == "last":
+                for off in range(last):
+                    cases.append(dict(base, sub="subst", part=pi, side="end", off=off))
     for L in FAULT_LENS[tier]:
         E = len(ref.ur_body(payload_of(seed, "A", L))[0])
         for n in range(1, nmax + 1):
@@ -407,7 +493,16 @@ def gen_faults(tier, seed):
             if n == 1:
                 cases.append(dict(base, kind="subst", form="single-digest", part=0))
                 cases.append(dict(base, kind="subst", form="single-plain", part=0))
-    cases.sort(key=lambda c: -(c["L"] if c["kind"] == "subst" else 0))
+                cases.append(dict(base, kind="subst", form="single-plain-multi", part=0))
+                cases.append(dict(base, kind="cut1"))
+            cases.append(dict(base, kind="relabel"))
+            if L in INDEL_LENS[tier]:
+                for i in range(n):
+                    cases.append(dict(base, kind="indel", form="multi", part=i))
+                if n == 1:
+                    for form in ("single-digest", "single-plain", "single-plain-multi"):
+                        cases.append(dict(base, kind="indel", form=form, part=0))
+    cases.sort(key=lambda c: -(10**6 if c["kind"] == "big" else c["L"] if c["kind"] in ("subst", "indel") else 0))
     return cases
 
 
@@ -450,6 +545,8 @@ def split_part(p):
 def run_faults(case):
     from buidl.bcur import BCURMulti, BCURSingle
 
+    if case["kind"] == "big":
+        return run_big(case)
     res = Res()
     L, n, mx, seed = case["L"], case["n"], case["max"], case["seed"]
     A = payload_of(seed, "A", L)
@@ -464,7 +561,7 @@ def run_faults(case):
         # a different (still usable) chunking than the equalised plan is not a violation: follow the library
         res.ok("base message has a different part count than the equalised plan (recorded)")
         n = len(parts)
-        if n > 5 or (case["kind"] == "subst" and case["form"] == "multi" and case["part"] >= n):
+        if n > 5 or (case["kind"] in ("subst", "indel") and case["form"] == "multi" and case["part"] >= n):
             res.skip("library part count outside the bound of this engine")
             return res
     sizes = [len(split_part(p)[2]) for p in parts]
@@ -620,7 +717,13 @@ def run_faults(case):
             target = s.encode(use_checksum=(form == "single-digest"))
             build = lambda s: s  # noqa
             reader = BCURSingle.parse
+            if form == "single-plain-multi":
+                # the no-digest string handed to the multi-part reader (no digest, no re-encoding comparison there)
+                reader = lambda t: BCURMulti.parse([t])  # noqa
             st, _ = outcome_of(reader, target, A)
+            if st == "rejected" and form == "single-plain-multi":
+                res.skip("the multi-part reader refuses the no-digest single-part form")
+                return res
             if st != "same":
                 res.violation(f"C20/faults/honest-{st}/{form}", vc, st, "original payload", "the unmodified single-part string is not read back")
                 return res
@@ -658,6 +761,190 @@ def run_faults(case):
             res.bulk(k, v, 0)
         res.nontrivial_bulk += deep
         res.notes["subst_total"] = tot
+    elif kind == "indel":
+        # one character lost, one character too many, two neighbours swapped - in the digest and in the body
+        form, pi = case["form"], case["part"]
+        if form == "multi":
+            target = parts[pi]
+            build = lambda s: parts[:pi] + [s] + parts[pi + 1 :]  # noqa
+            reader = multi
+        else:
+            target = BCURSingle(text_b64=b64(A)).encode(use_checksum=(form == "single-digest"))
+            build = lambda s: s  # noqa
+            reader = (lambda t: BCURMulti.parse([t])) if form == "single-plain-multi" else BCURSingle.parse  # noqa
+            st, _ = outcome_of(reader, target, A)
+            if st == "rejected" and form == "single-plain-multi":
+                res.skip("the multi-part reader refuses the no-digest single-part form")
+                return res
+            if st != "same":
+                res.violation(f"C20/faults/honest-{st}/{form}", vc, st, "original payload", "the unmodified single-part string is not read back")
+                return res
+        fields = target.split("/")
+        names = {2: ["type", "body"], 3: ["type", "digest", "body"], 4: ["type", "seq", "digest", "body"]}[len(fields)]
+        cnt = {}
+        p = 0
+        for nm, f in zip(names, fields):
+            a, b = p, p + len(f)
+            p = b + 1
+            if nm not in ("digest", "body"):
+                continue
+            muts = []
+            for pos in range(a, b):
+                muts.append(("delete", pos, target[:pos] + target[pos + 1 :]))
+                if pos + 1 < b and target[pos] != target[pos + 1]:
+                    muts.append(("swap", pos, target[:pos] + target[pos + 1] + target[pos] + target[pos + 2 :]))
+            for pos in range(a, b + 1):
+                for c in BECH:
+                    muts.append(("insert", pos, target[:pos] + c + target[pos:]))
+            for op, pos, bad in muts:
+                if bad == target:
+                    continue
+                o = judge(reader, build(bad), f"indel/{form}/{nm}-{op}", {"pos": pos, "op": op, "text": bad[-12:]}, strict=True)
+                if o:
+                    key = f"indel/{form}/{nm}/{op}:{o}"
+                    cnt[key] = cnt.get(key, 0) + 1
+        for k, v in cnt.items():
+            res.bulk(k, v, v)
+    elif kind == "relabel":
+        # the library never compares the number of strings with the announced total: only the digest stands behind it
+        pa = [split_part(p) for p in parts]
+        cnt = {}
+
+        def relabelled(pieces, total, dgst=None):
+            return [f"ur:bytes/{i + 1}of{total}/{dgst or x[1]}/{x[2]}" for i, x in enumerate(pieces)]
+
+        for Y in sorted({n - 1, n + 1, n + 2, 10 * n}):
+            if Y == n:
+                continue
+            o = judge(multi, relabelled(pa, Y), "relabel/total-changed", {"total": Y})
+            if o:
+                cnt[f"relabel/total-changed:{o}"] = cnt.get(f"relabel/total-changed:{o}", 0) + 1
+        for k in range(1, n):
+            o = judge(multi, relabelled(pa[:k], k), "relabel/prefix-as-complete", {"k": k}, strict=True)
+            if o:
+                cnt[f"relabel/prefix-as-complete:{o}"] = cnt.get(f"relabel/prefix-as-complete:{o}", 0) + 1
+            # the same with a payload whose first k fragments are a valid bc32 string on their own
+            C = cut_valid_payload(A, n, size, k) if size else None
+            cparts = lib_parts(C, mx) if C is not None else None
+            if C is None or isinstance(cparts, Rejected) or len(cparts) != n or len(split_part(cparts[0])[2]) != size:
+                res.skip("no self-contained prefix can be crafted at this cut (padding / checksum overlap)")
+                continue
+            pc = [split_part(p) for p in cparts]
+            st, got = outcome_of(multi, relabelled(pc[:k], k), C)
+            if st != "rejected":
+                res.violation(
+                    "C20/faults/relabel/prefix-as-complete/valid-bc32-prefix", {"engine": "faults", "case": dict(case, detail={"k": k})},
+                    {"accepted": st, "returned_len": len(got) if isinstance(got, bytes) else None}, "rejection",
+                    "the first k parts, relabelled 1..k of k, are accepted although the rest of the message is missing",
+                )
+            else:
+                res.ok("relabel/prefix-as-complete/valid-bc32-prefix:rejected", nontrivial=("relabel-cut", L, n, k))
+        for k, v in cnt.items():
+            res.bulk(k, v, v)
+    elif kind == "cut1":
+        # a single part whose text is cut short at a point where what remains is still a valid bc32 string: without a
+        # digest only the CBOR length (and the re-encoding comparison of the constructor) can tell
+        if not size:
+            res.skip("base message is not in the reference layout")
+            return res
+        E = sizes[0]
+        made = 0
+        for k in [k for k in range(1, E) if k < 200 or k >= E - 40]:
+            C = cut_valid_payload(A, 1, k, 1)
+            if C is None:
+                continue
+            body, dg = ref.ur_body(C)
+            single = attempt(lambda: BCURSingle(text_b64=b64(C)).encode(use_checksum=False))
+            if single != "ur:bytes/" + body:
+                res.skip("crafted payload is not encoded as the reference text")
+                continue
+            pref = body[:k]
+            assert isinstance(ref.bc32_decode(pref), bytes), "cut1 construction"
+            made += 1
+            for nm, reader, arg in (
+                ("single-reads-plain", BCURSingle.parse, "ur:bytes/" + pref),
+                ("multi-reads-plain", multi, ["ur:bytes/" + pref]),
+                ("single-reads-digest", BCURSingle.parse, f"ur:bytes/{dg}/{pref}"),
+                ("multi-reads-1of1", multi, [f"ur:bytes/1of1/{dg}/{pref}"]),
+            ):
+                st, got = outcome_of(reader, arg, C)
+                if st != "rejected":
+                    res.violation(
+                        f"C20/faults/cut1/{nm}", {"engine": "faults", "case": dict(case, detail={"k": k})},
+                        {"accepted": st, "returned_len": len(got) if isinstance(got, bytes) else None}, {"len": L, "or": "rejection"},
+                        "a single part whose text is cut short (the rest is a valid bc32 string) is accepted and yields truncated data",
+                    )
+                else:
+                    res.ok(f"cut1/{nm}:rejected", nontrivial=("cut1", L, k, nm))
+        if not made:
+            res.skip("no cut point leaves a valid bc32 prefix (text too short)")
+    return res
+
+
+def run_big(case):
+    """53-part message (65535 / 65536 bytes at max_size_per_chunk=2000): single omissions, neighbour swaps, duplications,
+    foreign part / body / digest at one position, single-character substitutions at the two ends of the first and last part."""
+    from buidl.bcur import BCURMulti
+
+    res = Res()
+    L, mx, seed = case["L"], case["max"], case["seed"]
+    A = payload_of(seed, "A", L)
+    vc = {"engine": "faults", "case": case}
+    parts = lib_parts(A, mx)
+    multi = BCURMulti.parse
+    if isinstance(parts, Rejected) or not isinstance(parts, list) or len(parts) < 2:
+        res.violation("C20/faults/big/base-message", vc, repr(parts)[:200], "usable parts", "no usable honest parts for the large message")
+        return res
+    n = len(parts)
+    st, _ = outcome_of(multi, parts, A)
+    if st != "same":
+        res.violation(f"C20/faults/big/honest-{st}", vc, st, "original payload", "the unmodified parts of the large message are not reassembled")
+        return res
+    res.ok("big/honest:accepted-original")
+
+    def judge(arg, cls, detail, strict):
+        st, got = outcome_of(multi, arg, A)
+        if st == "different" or (strict and st == "same"):
+            res.violation(
+                f"C20/faults/big/{cls}" + ("" if st == "different" else "/accepted-although-faulty"), {"engine": "faults", "case": dict(case, detail=detail)},
+                {"accepted": st, "returned_len": len(got) if isinstance(got, bytes) else None}, {"len": L, "or": "rejection"},
+                "faulty parts of the large message are accepted",
+            )
+            return
+        res.ok(f"big/{cls}:{'rejected' if st == 'rejected' else 'accepted-original'}", nontrivial=("big", L, cls, repr(detail)))
+
+    sub = case["sub"]
+    if sub == "seq":
+        for i in range(n):
+            judge(parts[:i] + parts[i + 1 :], "seq/omission", {"omit": i}, True)
+            judge(parts[: i + 1] + parts[i:], "seq/duplication", {"dup": i}, False)
+            if i + 1 < n:
+                judge(parts[:i] + [parts[i + 1], parts[i]] + parts[i + 2 :], "seq/swap", {"swap": i}, True)
+        for k in (2, 3, n - 1):
+            judge(parts[: n - k], "seq/omission", {"omit_last": k}, True)
+    elif sub == "foreign":
+        B = payload_of(seed, "B", L)
+        bparts = lib_parts(B, mx)
+        if isinstance(bparts, Rejected) or len(bparts) != n:
+            res.skip("other payload does not split into the same number of parts at this chunk size")
+            return res
+        pa, pb = [split_part(p) for p in parts], [split_part(p) for p in bparts]
+        for i in range(n):
+            judge(parts[:i] + [bparts[i]] + parts[i + 1 :], "foreign-part", {"i": i}, True)
+            judge(parts[:i] + ["/".join([pa[i][0], pa[i][1], pb[i][2]])] + parts[i + 1 :], "foreign-body", {"i": i}, True)
+            judge(parts[:i] + ["/".join([pa[i][0], pb[i][1], pa[i][2]])] + parts[i + 1 :], "foreign-digest", {"i": i}, True)
+    elif sub == "subst":
+        pi = 0 if case["part"] == "first" else n - 1
+        target = parts[pi]
+        start = target.rindex("/") + 1
+        pos = start + case["off"] if case["side"] == "start" else len(target) - 1 - case["off"]
+        if not start <= pos < len(target):
+            res.skip("part shorter than the offset")
+            return res
+        for c in BECH:
+            if c == target[pos]:
+                continue
+            judge(parts[:pi] + [target[:pos] + c + target[pos + 1 :]] + parts[pi + 1 :], "subst/body-char", {"part": pi, "pos": pos, "char": c}, True)
     return res
 
 
@@ -708,6 +995,219 @@ def cut_valid_payload(payload, n, size, k):
     return _payload_from_syms(s, payload)
 
 
+# ---------------------------------------------------------------- strict (component-level decoders)
+def lib_bytes(x):
+    """what a decoder handed back: None when it refused (None / False / exception), else the value"""
+    if isinstance(x, Rejected) or x is None or x is False:
+        return None
+    return bytes(x) if isinstance(x, (bytes, bytearray)) else x
+
+
+def component_lengths(tier, seed):
+    """lengths of the `cbor` engine; the quick tier keeps 65535, 65536, 70000 of the 65530..65540 window"""
+    return [L for L in lengths(tier, "cbor", seed) if tier == "thorough" or L <= 600 or L in (65535, 65536, 70000)]
+
+
+def gen_strict(tier, seed):
+    return [{"L": L, "seed": seed, "short": (2 if tier == "quick" else 3) if L == 0 else None} for L in component_lengths(tier, seed)]
+
+
+def run_strict(case):
+    from buidl.bech32 import cbor_decode, bc32decode
+
+    res = Res()
+    L = case["L"]
+    data = payload_of(case["seed"], "f0", L)
+    bk = bucket(L)
+
+    def sound(layer, cls, lib_fn, ref_fn, arg, shown):
+        """soundness only: the library may refuse anything here, but bytes it returns must be what the strict reader returns"""
+        got = lib_bytes(attempt(lib_fn, arg))
+        if got is None:
+            res.ok(f"{layer}/{cls}:refused")
+            return
+        try:
+            want = ref_fn(arg)
+        except ValueError:
+            want = None
+        if got == want:
+            res.ok(f"{layer}/{cls}:same-as-strict-reader", nontrivial=(layer, cls, L, shown))
+        else:
+            res.violation(
+                f"C20/strict/{layer}/{cls}", {"engine": "strict", "case": case},
+                {"input": shown, "returned_len": len(got) if isinstance(got, bytes) else repr(got), "carried_len": L, "bucket": bk},
+                "refusal" if want is None else {"len": len(want)},
+                f"{layer} decoder returns bytes for an input the strict reader refuses (or returns other bytes)",
+            )
+
+    # ---- CBOR: heads of a definite-length byte string carrying `data`
+    heads = [("preferred", ref.cbor_head(L))]
+    for ib, k in ((0x58, 1), (0x59, 2), (0x5A, 4), (0x5B, 8)):
+        if L < 1 << (8 * k):
+            h = bytes([ib]) + L.to_bytes(k, "big")
+            if h != heads[0][1]:
+                heads.append((f"nonpreferred-{ib:02x}", h))
+    lhead, dialect, hstat = library_head(data)
+    if hstat == "dialect" and L > 65535:
+        heads.append(("library", lhead))  # the recorded non-standard head above 65535 bytes, read with the same dialect
+    else:
+        dialect = None
+    unwrap = lambda b: ref.cbor_unwrap(b, dialect)  # noqa
+    for hn, h in heads:
+        full = h + data
+        sound("cbor", "exact", cbor_decode, unwrap, full, hn)
+        for k in sorted({1, 2, 3, 4, 5, 6, 7, 8, L // 2, L} & set(range(1, L + 1))):
+            sound("cbor", "truncated", cbor_decode, unwrap, full[: len(full) - k], f"{hn}-minus{k}")
+        for j in range(1, len(h)):
+            sound("cbor", "truncated", cbor_decode, unwrap, h[:j], f"{hn}-head{j}")
+        for tail in (b"\x00", b"\xff", b"\x00\x00", data[-1:] or b"\x40"):
+            sound("cbor", "trailing", cbor_decode, unwrap, full + tail, f"{hn}-plus{tail.hex()}")
+        tb = h[0] + 0x20
+        if hn != "library" and tb != 0x60 and not (dialect and tb in dialect):
+            # the same bytes announced as a text string (major type 3); initial byte 0x60 is left out: it is the
+            # non-standard head the library itself writes above 65535 bytes (recorded by `cbor`, not asserted)
+            sound("cbor", "wrong-type", cbor_decode, unwrap, bytes([tb]) + full[1:], f"{hn}-text")
+        sound("cbor", "wrong-type", cbor_decode, unwrap, b"\x5f" + full + b"\xff", f"{hn}-indefinite")
+    sound("cbor", "truncated", cbor_decode, unwrap, b"", "empty")
+
+    # ---- bc32
+    text = ref.bc32_encode(data)
+    syms = ref.to_base32(data)
+    enc = lambda sy: "".join(BECH[x] for x in sy + ref.bc32_checksum(sy))  # noqa
+    sound("bc32", "case", bc32decode, ref.bc32_decode, text.upper(), "upper")
+    mixed = alt_case(text)
+    if mixed != text and mixed != text.upper():
+        sound("bc32", "case", bc32decode, ref.bc32_decode, mixed, "mixed")
+    for k in range(1, min(len(text), 8) + 1):
+        sound("bc32", "truncated", bc32decode, ref.bc32_decode, text[: len(text) - k], f"minus{k}")
+    for c in "qpl":
+        sound("bc32", "extended", bc32decode, ref.bc32_decode, text + c, f"plus-{c}")
+        sound("bc32", "extended", bc32decode, ref.bc32_decode, c + text, f"{c}-plus")
+    pad = 5 * len(syms) - 8 * L
+    for v in range(1, 1 << pad):
+        sound("bc32", "padding", bc32decode, ref.bc32_decode, enc(syms[:-1] + [syms[-1] | v]), f"nonzero-{v}")
+    sound("bc32", "padding", bc32decode, ref.bc32_decode, enc(syms + [0]), "one-more-symbol")
+    sound("bc32", "padding", bc32decode, ref.bc32_decode, enc(syms + [1]), "one-more-symbol-1")
+    if case["short"] is not None:
+        # every string shorter than the six checksum characters
+        n_ref = 0
+        for k in range(0, case["short"] + 1):
+            for tup in itertools.product(BECH, repeat=k):
+                t = "".join(tup)
+                got = lib_bytes(attempt(bc32decode, t))
+                if got is not None:
+                    res.violation("C20/strict/bc32/shorter-than-checksum", {"engine": "strict", "case": case}, {"input": t, "returned": got}, "refusal", "a string shorter than the bc32 checksum is decoded")
+                else:
+                    n_ref += 1
+        res.bulk("bc32/shorter-than-checksum:refused", n_ref, n_ref)
+    return res
+
+
+# ---------------------------------------------------------------- fn (bcur_encode / bcur_decode called directly)
+def gen_fn(tier, seed):
+    sub = 40 if tier == "quick" else 200
+    return [{"L": L, "seed": seed, "faults": L <= sub} for L in component_lengths(tier, seed)]
+
+
+def run_fn(case):
+    from buidl.bcur import bcur_encode, bcur_decode
+
+    res = Res()
+    L, seed = case["L"], case["seed"]
+    vc = {"engine": "fn", "case": case}
+    bk = bucket(L)
+    for kind in ("f0", "00", "ff"):
+        data = payload_of(seed, kind, L)
+        head, _, hstat = library_head(data)
+        use_head = head if hstat == "valid-nonpreferred" or (hstat == "dialect" and L > 65535) else None
+        want = ref.ur_body(data, use_head)
+        out = attempt(bcur_encode, data)
+        if not (isinstance(out, tuple) and len(out) == 2 and all(isinstance(x, str) for x in out)):
+            res.violation(f"C20/fn/encode-refused/{bk}", vc, repr(out)[:120], "(text, checksum)", "bcur_encode does not return two strings")
+            continue
+        if tuple(out) != want:
+            which = "text" if out[0] != want[0] else "checksum"
+            res.violation(f"C20/fn/encode/{which}/{bk}", vc, {"text": out[0][:60], "checksum": out[1]}, {"text": want[0][:60], "checksum": want[1]}, "bcur_encode differs from the reference text / digest")
+        else:
+            res.ok("bcur_encode==ref", nontrivial=("fn", L, kind))
+        enc, chk = out
+        for nm, call in (("with-checksum", lambda: bcur_decode(enc, chk)), ("checksum-keyword", lambda: bcur_decode(data=enc, checksum=chk)),
+                         ("no-checksum", lambda: bcur_decode(enc)), ("checksum-none", lambda: bcur_decode(enc, checksum=None))):
+            back = attempt(call)
+            if back != data:
+                res.violation(f"C20/fn/inverse/{nm}/{bk}", vc, repr(back)[:80], {"len": L}, "bcur_decode(bcur_encode(x)) != x")
+            else:
+                res.ok(f"bcur_decode[{nm}]==x")
+    if not case["faults"]:
+        return res
+    A = payload_of(seed, "f0", L)
+    body, dg = ref.ur_body(A)
+    if attempt(bcur_decode, body, dg) != A:
+        res.skip("reference text is not read back (reported above)")
+        return res
+
+    def judge(cls, detail, strict, *args):
+        back = lib_bytes(attempt(bcur_decode, *args))
+        if back is None:
+            return "rejected"
+        if back == A and not strict:
+            return "returned-original"
+        res.violation(
+            f"C20/fn/{cls}" + ("/accepted-although-faulty" if back == A else ""), {"engine": "fn", "case": dict(case, detail=detail)},
+            {"returned_len": len(back) if isinstance(back, bytes) else repr(back)}, {"original_len": L, "or": "rejection"},
+            "bcur_decode accepts a faulty text / checksum",
+        )
+        return None
+
+    cnt = {}
+
+    def tally(key, o):
+        if o:
+            cnt[f"{key}:{o}"] = cnt.get(f"{key}:{o}", 0) + 1
+
+    for pos, c in itertools.product(range(len(body)), BECH):
+        if body[pos] == c:
+            continue
+        bad = body[:pos] + c + body[pos + 1 :]
+        tally("subst/text/with-checksum", judge("subst/text/with-checksum", {"pos": pos, "char": c}, True, bad, dg))
+        tally("subst/text/no-checksum", judge("subst/text/no-checksum", {"pos": pos, "char": c}, True, bad))
+    for pos, c in itertools.product(range(len(dg)), BECH):
+        if dg[pos] == c:
+            continue
+        tally("subst/checksum", judge("subst/checksum", {"pos": pos, "char": c}, True, body, dg[:pos] + c + dg[pos + 1 :]))
+    for other, B in (("same-len", payload_of(seed, "B", L)), ("len+1", payload_of(seed, "B", L + 1))):
+        bbody, bdg = ref.ur_body(B)
+        if B == A:
+            continue
+        tally(f"foreign-checksum/{other}", judge("foreign-checksum", {"other": other}, True, body, bdg))
+        tally(f"foreign-text/{other}", judge("foreign-text", {"other": other}, True, bbody, dg))
+    # an empty checksum is not one of the statement's faults: recorded only (it must not yield different data)
+    tally("empty-checksum(recorded)", judge("empty-checksum", {}, False, body, ""))
+    # texts cut short where the remaining prefix is a valid bc32 string
+    E = len(body)
+    for k in [k for k in range(1, E) if k < 200 or k >= E - 40]:
+        C = cut_valid_payload(A, 1, k, 1)
+        if C is None:
+            continue
+        cbody, cdg = ref.ur_body(C)
+        if attempt(bcur_decode, cbody, cdg) != C:
+            continue
+        pref = cbody[:k]
+        assert isinstance(ref.bc32_decode(pref), bytes), "fn cut construction"
+        for nm, args in (("no-checksum", (pref,)), ("with-checksum", (pref, cdg))):
+            back = lib_bytes(attempt(bcur_decode, *args))
+            if back is None:
+                tally(f"cut/{nm}", "rejected")
+            else:
+                res.violation(
+                    f"C20/fn/cut/{nm}", {"engine": "fn", "case": dict(case, detail={"k": k})}, {"returned_len": len(back) if isinstance(back, bytes) else repr(back)},
+                    {"len": L, "or": "rejection"}, "bcur_decode of a text cut short (valid bc32 prefix) returns data",
+                )
+    for k, v in cnt.items():
+        res.bulk(k, v, v)
+    return res
+
+
 # ---------------------------------------------------------------- engines
 def engines(tier, seed):
     return [
@@ -715,6 +1215,7 @@ def engines(tier, seed):
             "cbor", gen_cbor, run_cbor, kind="E1",
             rule="every byte-string length 0..600, 65530..65540 and 70000 (crossing 23/24, 255/256, 65535/65536) x 3 contents (seeded filler, all-00, all-ff): "
             "cbor_decode(cbor_encode(x)) == x; head == RFC 8949 head and decoder reads it (asserted <= 65535; above, the head written is recorded only). "
+            "Thorough adds 2^k-1, 2^k, 2^k+1 for k = 11..15 and 64 seed-chosen lengths in 1301..65529 (also for bc32, chunk, strict, fn). "
             "Non-trivial = every (length, content)",
         ),
         Engine(
@@ -726,8 +1227,11 @@ def engines(tier, seed):
             "chunk", gen_chunk, run_chunk, kind="E1",
             rule="every payload length 0..600 (quick) / 0..1300 (thorough, two contents up to 600) x every max_size_per_chunk 1..2000: encode() == reference fragments "
             "(or at least fragments <= max that join to the body); every distinct chunking is reassembled by BCURMulti.parse and by the independent reader; BCURSingle both forms, "
-            "animate=False. Window 65530..65540 + 70000: quick 5 (length, size) points; thorough every size 1..2000 for 65535, 65536, 70000 and 10 boundary sizes for the rest. "
-            "Non-trivial = chunkings with more than one part",
+            "animate=False. Window 65530..65540 + 70000: quick 5 (length, size) points; thorough every size 1..2000 for 65535, 65536, 70000 and 10 boundary sizes for the rest; "
+            "thorough also 2^k-1, 2^k, 2^k+1 (k = 11..15) and 64 seed-chosen lengths in 1301..65529 at sizes 1, 299, 300, 301, 2000. "
+            "Every distinct chunking of at most 5 parts and both single-part forms are also presented in upper case and (multi) alternately upper / lower case per part: must be "
+            "accepted with the original payload (BCR-2020-005 case-insensitivity); with surrounding white space, as a tuple, with mixed case inside one string: raises or original payload. "
+            "Non-trivial = chunkings with more than one part, upper-case presentations",
         ),
         Engine(
             "faults", gen_faults, run_faults, kind="E1",
@@ -735,6 +1239,30 @@ def engines(tier, seed):
             "whole parts / bodies / digests from 2 unrelated payloads and from n crafted bc32-checksum-preserving payloads on every non-empty subset of positions; crafted payloads whose "
             "first k fragments are a valid bc32 string, with trailing parts omitted; every single-character substitution at every position of every part and of both BCURSingle forms "
             "over the 32 bech32 characters plus 13 (quick) / 70 (thorough) other characters. Oracle: parse raises or returns the original payload; honest parts must be accepted. "
-            "Non-trivial = faulty sequence / foreign mix / substitution of a body or digest character by a bech32 character",
+            "Also: the no-digest single-part string substituted the same way but read by BCURMulti.parse([s]); single parts (4 presentations: no-digest and with digest, each through "
+            "BCURSingle.parse and BCURMulti.parse) cut after k characters for every k among the first 200 and last 40 characters for which a payload exists whose k-character prefix "
+            "is a valid bc32 string: must be rejected; all parts relabelled i-of-Y for Y in {n-1, n+1, n+2, 10n} (raises or original) and the first k < n parts relabelled i-of-k, "
+            "honest and with a crafted valid-bc32 prefix (must be rejected); for 6 (15) payload lengths every deletion of one character, every insertion of one of the 32 characters at "
+            "every position and every swap of two neighbours inside the digest and the body of every part and single-part form (must be rejected); a 65536-byte (thorough: also 65535-byte) "
+            "payload at max_size_per_chunk=2000 (53 parts): every single omission, neighbour swap, duplication, omission of the last 2, 3, n-1 parts, a foreign part / body / digest at every "
+            "single position, every substitution of the first 8 body characters of the first part and the last 7 of the last part (thorough: first 40 and last 12 of both). "
+            "Non-trivial = faulty sequence / foreign mix / substitution, deletion, insertion, swap in body or digest by a bech32 character / cut point / relabelling",
+        ),
+        Engine(
+            "strict", gen_strict, run_strict, kind="E1",
+            rule="component decoders, every byte-string length of the `cbor` engine (quick: 0..600, 65535, 65536, 70000), one seeded content. cbor_decode on: every standard head that can carry the length (preferred, "
+            "0x58/0x59/0x5a/0x5b non-preferred) and the library's own head above 65535 bytes, each exact, with the last 1..8, L/2 and L bytes missing, cut inside the head, followed by "
+            "00 / ff / 0000 / a repeated byte, announced as a text string, wrapped as an indefinite-length string; the empty buffer. bc32decode on: upper case, alternating case, last 1..8 "
+            "characters missing, one of q p l appended / prepended, every non-zero value of the padding bits and one more data symbol (0, 1) under a recomputed checksum; length 0 also every "
+            "string of 0..2 (thorough 0..3) characters. Oracle (soundness only): whenever the library returns bytes, the strict RFC 8949 / BCR-2020-004 reader of mc.ref.bcurref returns the "
+            "same bytes; refusing is always allowed. Non-trivial = inputs on which the library returned bytes, and every string shorter than the checksum",
+        ),
+        Engine(
+            "fn", gen_fn, run_fn, kind="E1",
+            rule="bcur_encode / bcur_decode called directly, every length of the `cbor` engine (quick: 0..600, 65535, 65536, 70000) x 3 contents: bcur_encode == (reference bc32 text, reference bc32 SHA-256 text); "
+            "bcur_decode(text, checksum), bcur_decode(text) and the keyword / checksum=None forms return the payload. For lengths 0..40 (thorough 0..200): every single-character substitution "
+            "of the text (with the honest checksum and without a checksum) and of the checksum, text / checksum of a second payload of the same and of the next length: must be refused "
+            "(None / exception); empty checksum: recorded, must not give other data; the text cut after k characters (k as in faults/cut1, crafted valid bc32 prefix) with and without "
+            "checksum: must be refused. Non-trivial = every (length, content), every faulty call",
         ),
     ]
